@@ -12,6 +12,12 @@ class MapWorld:
                     for _ in range(n_intervals)]
         self.models = [dict() for _ in self.bis]
         self.exprs = {}  # id -> label
+        # views taken once and kept: a dict's keys()/values()/items() are
+        # live views of the mapping, through every later operation
+        self.kept = [(bi.symbolic_expressions.keys(),
+                      bi.symbolic_expressions.values(),
+                      bi.symbolic_expressions.items(),
+                      bi.symbolic_expressions) for bi in self.bis]
 
     def expr(self):
         rnd, gt = self.rnd, self.gt
@@ -47,6 +53,21 @@ class MapWorld:
                               after, [(k, self.exprs.get(i, "?"))
                                       for k, i in got],
                               [(k, self.exprs.get(i, "?")) for k, i in want]))
+            ks, vs, its, obj = self.kept[self.bis.index(bi)]
+            self.ctx.count("map:kept_view_checks")
+            if bi.symbolic_expressions is not obj:
+                self.fail("mapping-object-replaced:" + after,
+                          "interval.symbolic_expressions is a different "
+                          "object after " + after)
+            if list(ks) != sorted(model) or \
+                    [id(v) for v in vs] != [i for k, i in want] or \
+                    [(k, id(v)) for k, v in its] != want or \
+                    len(ks) != len(model):
+                self.fail("stale-view:" + after,
+                          "a keys()/values()/items() view taken earlier "
+                          "shows %s after %s; the mapping holds %s (a dict's "
+                          "views are live)" % (list(ks), after,
+                                               sorted(model)))
             if list(m) != sorted(model) or len(m) != len(model):
                 self.fail("iteration:" + after,
                           "iteration/len disagree with the items view")
